@@ -915,6 +915,8 @@ class Ownership:
              [P("0", '<c %s><ax>t</ax></c>' % A, 0, _P_ONLY), ["path", "0.0", "~", h("/a:c/ax"), h("uu"), _NEW_PATH_UPDATE]]),
             ("new-path-nested-parent-toplevel-misplaced",
              [P("0", '<l %s><k1>c</k1><k2>1</k2></l>' % A, 0, _P_ONLY), ["path", "0.1", "~", h("/a:c/p/man"), h("m"), 0]]),
+            ("new-path-nonfirst-parent-toplevel-misplaced",
+             [P("0", '<tul %s>n</tul><tul %s>m</tul>' % (A, A), 0, _P_ONLY), ["path", "0.1", "~", h("/a:top"), h("t"), 0]]),
             ("insert-sibling-first-of-own-list-assert",
              [P("0", '<c %s><ol><k>y</k></ol><ol><k>z</k></ol></c>' % A, 0, _P_ONLY), ["ins", "s", "0.3", "0.1"]]),
             ("validate-first-node-autodel-uaf", [P("0", '<c %s><zz/></c><c %s><sl>x</sl></c>' % (A, A), 0)]),
@@ -1121,6 +1123,8 @@ class Ownership:
                     tag = "merge-destruct-einval-source-not-consumed"
                 elif f.group(1) == "LINK" and "schema parent" in p and cmd.startswith("path"):
                     tag = "new-path-nested-parent-toplevel-misplaced"
+                elif f.group(1) == "LINK" and "not contiguous" in p and cmd.startswith("path"):
+                    tag = "new-path-nonfirst-parent-toplevel-misplaced"
                 elif f.group(1) == "LINK" and cmd == "ins" and "schema parent" in p:
                     tag = "insert-opaque-anchor-no-schema-check"
                 elif f.group(1) == "LINK" and cmd == "ins":
